@@ -216,6 +216,7 @@ impl Energy {
     pub fn is_electricity(&self) -> bool {
         match self {
             Energy::Aux(_) => true,
+            Energy::Out(_) => false,
             _ => self.carrier() == Carrier::ELECTRICIDAD,
         }
     }
